@@ -4,7 +4,9 @@ import (
 	"fmt"
 	"go/ast"
 	"go/constant"
+	"go/token"
 	"go/types"
+	"sort"
 )
 
 func runC01(c *Ctx) {
@@ -49,6 +51,10 @@ func runC01(c *Ctx) {
 			}
 		}
 	}
+	// R5: error discipline before the commit point.
+	r5 := c.Rule("R5", "every call, in a function reachable from phase1Commit through static calls inside package common, to a method of the storage / lock / log interfaces has its error result tested, and the failure edge leads to an error return (or a documented retry), never silently onwards; accepted idioms are enumerated: best-effort cache writes logged with log.Warn, Unlock, removal of an obsolete pre-commit log", 20)
+	errorDisciplineRule(c, r5)
+
 	// R6: nothing-to-commit guard.
 	r6 := c.Rule("R6", "phase1Commit returns early when nothing is tracked, so every non-error exit of itemActionTracker.Add/Update/Remove must leave the action recorded in the `items` map that hasTrackedItems / lock / checkTrackedItems iterate (an entry found there already, or the cancellation of a pending add, are the accepted idioms)", 4)
 	{
@@ -294,4 +300,89 @@ func ruleNothingFailsAfterCommitPoint(c *Ctx, r3 string) {
 		}
 	}
 
+}
+
+// errorDisciplineRule (C01.R5).
+func errorDisciplineRule(c *Ctx, r5 string) {
+	w := c.W
+	// functions reachable from phase1Commit (static, bodies in package common)
+	reach := map[*Func]bool{}
+	var rec func(f *Func)
+	rec = func(f *Func) {
+		if f == nil || reach[f] || shortPkgPath(f.Pkg.PkgPath) != "common" {
+			return
+		}
+		reach[f] = true
+		for _, cs := range w.Sites(f) {
+			rec(w.CalleeFunc(cs))
+			for _, a := range cs.Call.Args {
+				if lit, ok := ast.Unparen(a).(*ast.FuncLit); ok {
+					rec(w.byLit[lit])
+				}
+			}
+		}
+	}
+	rec(w.Fn(kTxp1))
+	must := map[string]bool{
+		kRegUpdNL: true, kRegUpd: true, kRegAdd: true, kRegRemove: true, kRegGet: true,
+		kBlobAdd: true, kBlobUpdate: true, kBlobRemove: true, kBlobGetOne: true,
+		kSRAdd: true, kSRUpdate: true, kSRRemove: true, "sop.StoreRepository.Get": true, "sop.StoreRepository.GetWithTTL": true,
+		"sop.TransactionLog.Add": true, kPLogAdd: true,
+		kL2Lock: true, kL2DualLock: true, kL2IsLocked: true, kL2GetStructs: true, kL2SetStructs: true,
+	}
+	// accepted best-effort calls (never required to propagate): documented in the code as tolerated
+	bestEffort := map[string]string{
+		"sop.L2Cache.SetStruct": "cache copies are best-effort (logged with log.Warn)",
+		"sop.L2Cache.Delete":    "cache eviction is best-effort",
+		kL2Unlock:               "locks are TTL-bounded",
+		kTLogRemove:             "removal of an obsolete pre-commit log",
+		kPLogRemove:             "removed again by recovery",
+	}
+	_ = bestEffort
+	var fs []*Func
+	for f := range reach {
+		fs = append(fs, f)
+	}
+	sort.Slice(fs, func(i, j int) bool { return fs[i].Key < fs[j].Key })
+	n := 0
+	for _, f := range fs {
+		g := w.G(f)
+		for _, nd := range g.Nodes {
+			for _, cs := range nd.Calls {
+				if !must[cs.Key] || cs.Deferred || cs.Go {
+					continue
+				}
+				n++
+				c.Analysed(f)
+				construct := fmt.Sprintf("%s: error of %s #%d is propagated", shortKey(rootOf(f).Key), shortKey(cs.Key), ordinalOf(w, rootOf(f), cs))
+				// `return x.Call(...)`: propagated by construction
+				if nd.Ret != nil {
+					c.Held(r5, construct, cs.Call.Pos(), "returned directly")
+					continue
+				}
+				fail, _, ok := g.ErrBranches(nd, cs)
+				if !ok {
+					c.Violated(r5, construct, cs.Call.Pos(), "the error result of a storage / lock call on the commit path is not bound to a tested variable: a failed write can go unnoticed and the commit reports success", nil)
+					continue
+				}
+				// from the failure edge: only non-nil error returns, or (for bool-returning validators) `return false, ..., err`;
+				// reaching a nil-error return or the node itself again (loop) without returning is a violation
+				r := g.Reach(fail, isReturn, nil)
+				var offs []Offence
+				for _, x := range g.Nodes {
+					if !r.Seen[x.ID] {
+						continue
+					}
+					if x.Ret != nil && g.ClassifyReturn(x) == RetNil {
+						offs = append(offs, Offence{x, r.Path(x.ID)})
+					}
+					if x.Exit && g.errResultIndex() >= 0 {
+						// falling off the end is impossible for functions with results
+					}
+				}
+				c.Offences(g, offs, r5, construct, cs.Call.Pos(), "failure edge reaches no success return", "a failed storage / lock call can end in a nil-error return")
+			}
+		}
+	}
+	c.Check(n >= 20, r5, "storage / lock calls on the commit path inventoried", token.NoPos, fmt.Sprintf("%d calls in %d functions", n, len(fs)), fmt.Sprintf("only %d found", n), nil)
 }
